@@ -93,11 +93,12 @@ pub fn run() -> Report {
     let parts = par_fold(
         &cases,
         || Report::new("C02", "e1"),
-        |w, _i, c, acc| {
+        |w, i, c, acc| {
             let wk = Worker::new(&root, w);
             let chain = if c.n >= 10_000 { crate::c03::uniform_chain(c.n) } else { dependent_chain(btc, c.base, c.n) };
             let all = chain.mblocks();
-            let world = World::simple(btc, &chain.blocks, c.base);
+            // every other case spread over two blk files (height order leaves a file and returns to the adjacent block)
+            let world = World::laid_out(btc, &chain.blocks, c.base, if c.n >= 10_000 { 0 } else { i });
             let tip = c.base + c.n as u64 - 1;
             let s = c.start.unwrap_or(0);
             let e = c.end.map(|e| e.min(tip)).unwrap_or(tip);
